@@ -26,6 +26,33 @@ def _leaf_fn(name, leaf, tvar_sort=z3.IntSort()):
     return lambda t: Sym(f(t))
 
 
+def _snapshot(eng):
+    """per-path recorder state, so that a discarded first trace of a scan body leaves no records behind"""
+    from ..contract import _snap
+    from ..gfi import AbsGF
+
+    extra = {k: (list(v) if isinstance(v, list) else v) for k, v in eng.extra.items()}
+    calls = [(g, list(g.calls)) for g in (AbsGF._live or ())]
+    return _snap(), extra, calls
+
+
+def _restore_state(eng, state):
+    from ..contract import _restore
+
+    snap, extra, calls = state
+    _restore(snap)
+    for k in list(eng.extra):
+        if k not in extra:
+            del eng.extra[k]
+    for k, v in extra.items():
+        if isinstance(v, list) and isinstance(eng.extra.get(k), list):
+            eng.extra[k][:] = v
+        else:
+            eng.extra[k] = v
+    for g, c in calls:
+        g.calls[:] = c
+
+
 def scan(f, init, xs=None, length=None, reverse=False, unroll=1, **kw):
     Assumed.note("jax.lax.scan: carry threaded through T = length iterations over the leading axis of xs, outputs stacked (induction schema: C(0)=init, C(t+1)=step(C(t), xs[t]))")
     eng = engine()
@@ -54,18 +81,34 @@ def scan(f, init, xs=None, length=None, reverse=False, unroll=1, **kw):
     eng.assume(z3.And(t >= 0, t < Tt))
     init_leaves, treedef = real_jtu.tree_flatten(init, is_leaf=lambda x: isinstance(x, (Sym, Tensor)))
     cfs = [_leaf_fn("C%d" % k, l) if isinstance(l, (Sym, Tensor, int, float, bool)) else (lambda t, l=l: l) for k, l in enumerate(init_leaves)]
-    carry_t = real_jtu.tree_unflatten(treedef, [c(t) for c in cfs])
     pos = (Tt - 1 - t) if reverse else t
     x_t = jtu_stub.tree_map(lambda leaf: lane(leaf, Sym(pos), 0) if isinstance(leaf, Tensor) else leaf, xs)
-    lanes = eng.extra.setdefault("lanes", [])
-    lanes.append(t)
-    try:
-        new_carry, y = f(carry_t, x_t)
-    finally:
-        lanes.pop()
-    new_leaves, treedef2 = real_jtu.tree_flatten(new_carry, is_leaf=lambda x: isinstance(x, (Sym, Tensor)))
-    if treedef2 != treedef:
-        raise documented(TypeError("scan body function carry input and carry output must have the same pytree structure"))
+
+    def trace_body(cfs):
+        carry_t = real_jtu.tree_unflatten(treedef, [c(t) for c in cfs])
+        lanes = eng.extra.setdefault("lanes", [])
+        lanes.append(t)
+        try:
+            new_carry, y = f(carry_t, x_t)
+        finally:
+            lanes.pop()
+        new_leaves, treedef2 = real_jtu.tree_flatten(new_carry, is_leaf=lambda x: isinstance(x, (Sym, Tensor)))
+        if treedef2 != treedef:
+            raise documented(TypeError("scan body function carry input and carry output must have the same pytree structure"))
+        return carry_t, new_carry, y, new_leaves
+
+    # a Python int in the initial carry is WEAKLY typed: when the body hands back a float for it, JAX promotes the carry
+    # to float and traces the body again with the promoted carry (a body that hands back an int keeps it an int)
+    weak_int = [isinstance(l, int) and not isinstance(l, bool) for l in init_leaves]
+    state = _snapshot(eng) if any(weak_int) else None
+    carry_t, new_carry, y, new_leaves = trace_body(cfs)
+    promote = [k for k, (w, nl) in enumerate(zip(weak_int, new_leaves)) if w and isinstance(nl, Sym) and nl.e.sort() == z3.RealSort()]
+    if promote:
+        Assumed.note("jax.lax.scan: a weakly typed (Python int) initial carry whose body returns a float is promoted to float and the body is traced again with the promoted carry")
+        _restore_state(eng, state)
+        for k in promote:
+            cfs[k] = _leaf_fn("C%d" % k, float(init_leaves[k]))
+        carry_t, new_carry, y, new_leaves = trace_body(cfs)
     eng.extra.setdefault("scans", []).append(
         {"T": Tt, "t": t, "carry_at": lambda tt: real_jtu.tree_unflatten(treedef, [c(tt) for c in cfs]),
          "init": init, "new_carry": new_carry, "y": y, "x_t": x_t, "carry_t": carry_t, "reverse": reverse}
